@@ -9,3 +9,6 @@ Definition di_thr_nth (i : nat) : Z * Z := snd (nth i thr_gradient__derivative_i
 Definition di_thr_dE : Z * Z := di_thr_nth 0.
 Definition di_thr_EdE : Z * Z := di_thr_nth 1.
 Definition di_thr_EdEdE : Z * Z := di_thr_nth 2.
+
+(* threshold of the degeneracy mask of gradient._liouville_derivative (np.abs(omega_diff*dt) < 1e-7) *)
+Definition ld_thr : Z * Z := snd (nth 0 thr_gradient__liouville_derivative (""%string, (0, 0)%Z)).
